@@ -187,6 +187,7 @@ func c11Extra(c *Check) {
 	const r8 = "C11.R8 every path through the congestion-event handler reaches the function that recomputes the compensation factor from the window (no early return keeps a stale factor)"
 	{
 		var handler, recompute *ssa.Function
+		recomputeSet := map[*ssa.Function]bool{}
 		for _, fn := range p.RepoFns {
 			if pk := fnPkg(fn); pk == nil || pk.Pkg.Path() != pBrutal || fn.Parent() != nil {
 				continue
@@ -228,7 +229,13 @@ func c11Extra(c *Check) {
 				}
 				walk(g, 0)
 				if storesFloat {
-					recompute = g
+					// several callees may set the factor (e.g. a constant setter on the
+					// compensation-disabled branch next to the recomputation): any of them
+					// leaves a freshly determined factor behind
+					if recompute == nil || len(g.Blocks) > len(recompute.Blocks) {
+						recompute = g
+					}
+					recomputeSet[g] = true
 				}
 			}
 		}
@@ -238,7 +245,7 @@ func c11Extra(c *Check) {
 			c.Saw(fnName(handler))
 			isRecompute := func(in ssa.Instruction) bool {
 				ci, ok := in.(ssa.CallInstruction)
-				return ok && staticCallee(ci) == recompute
+				return ok && recomputeSet[staticCallee(ci)]
 			}
 			exits := exitsReachableAvoiding(handler, nil, isRecompute)
 			pos := p.Pos(handler.Pos())
